@@ -771,7 +771,8 @@ def flatten(self, *dims, **kwargs):
         return b.flatten(dims, insert=insert)
 
     # Create a new flattened axis
-    newaxis = MultiAxis(*[ax for ax in self.axes if ax.name in dims])
+    # (copies: the grouped axis caches its labels and name, a later change of the operand's axes must not reach its members)
+    newaxis = MultiAxis(*[ax.copy() for ax in self.axes if ax.name in dims])
 
     # New axes
     newaxes = [ax for ax in self.axes if ax.name not in dims]
@@ -820,7 +821,7 @@ def unflatten(self, axis=None):
 
     newshape = self.shape[:axis] + tuple(ax.size for ax in group.axes) + self.shape[axis+1:]
     newvalues = self.values.reshape(newshape)
-    newaxes = self.axes[:axis] + group.axes + self.axes[axis+1:]
+    newaxes = self.axes[:axis] + group.axes.copy() + self.axes[axis+1:] # copies: see flatten
 
     newobj = self._constructor(newvalues, newaxes)
     newobj.attrs.update(self.attrs)
